@@ -790,6 +790,17 @@ func (s *Scanner) checkUnionInjection(stmt *ast.SetOperation, result *ScanResult
 		// Check for NULL placeholders (common in UNION injection)
 		nullCount := 0
 		for _, col := range rightSelect.Columns {
+			// a padding column is still one when it is given a name or a type
+			// (NULL AS x, CAST(NULL AS INT), NULL::text)
+			for {
+				if al, ok := col.(*ast.AliasedExpression); ok && al.Expr != nil {
+					col = al.Expr
+				} else if ce, ok := col.(*ast.CastExpression); ok && ce.Expr != nil {
+					col = ce.Expr
+				} else {
+					break
+				}
+			}
 			if ident, ok := col.(*ast.Identifier); ok {
 				if strings.ToUpper(ident.Name) == "NULL" {
 					nullCount++
